@@ -77,6 +77,8 @@ def install_monitors(node: Any) -> None:
                 {
                     "path": file.path,
                     "violations": sorted(_violation_row(v) for v in file.violations),
+                    # the order in which the file reports them (what a caller of get_violations() sees)
+                    "reported_order": [[v.rule_code(), v.line_no, v.line_pos] for v in file.get_violations()],
                     "tmp_prs_unfiltered": file.num_violations(
                         types=TMP_PRS_ERROR_TYPES, filter_ignore=False, filter_warning=False
                     ),
@@ -607,6 +609,7 @@ PROBES = [
     ["rules", "capitalisation.keywords", "capitalisation_policy"],
     ["templater", "jinja", "context", "k1"],
     ["templater", "jinja", "context", "k2"],
+    ["templater", "jinja", "load_macros_from_path"],
 ]
 
 
@@ -744,14 +747,19 @@ def _install_buggify(node: Any) -> None:
 def _tree_sig(seg: Any, out: list, depth: int = 0) -> None:
     pm = seg.pos_marker
     if not seg.segments:
+        extra = ""
+        if hasattr(seg, "source_str"):
+            # template placeholders: their source text and block type are part of the tree (stringify shows them)
+            extra = "|%r|%s" % (getattr(seg, "source_str", None), getattr(seg, "block_type", None))
         out.append(
-            "%s%s|%r|%s|%s"
+            "%s%s|%r|%s|%s%s"
             % (
                 " " * depth,
                 seg.get_type(),
                 seg.raw,
                 (pm.source_slice.start, pm.source_slice.stop) if pm else None,
                 (pm.templated_slice.start, pm.templated_slice.stop) if pm else None,
+                extra,
             )
         )
         return
